@@ -203,14 +203,26 @@ def render_structs(k, it: Item, meta, cfg, strum_path="strum"):
                 %(mutw)s
                 format!("%(b)s={}/{}/{}/{}", a, r, mm, vobs(&m))
             }''' % {"b": base, "show": show, "show_ref": show_ref, "show_mut": show_mut, "mutw": mutw})
+        # methods that must NOT exist (disabled or non-tuple variants): probed through a fallback trait, as for EnumIs
+        absent_t = list(meta.get("absent_tryas", []))
+        absent_call = ""
+        if absent_t:
+            src.append("thread_local! { static FALLBACK_TA: std::cell::Cell<u32> = std::cell::Cell::new(0); }")
+            src.append("pub trait FallbackTryAs { %s }" % " ".join(
+                "fn %s_ref(&self) -> Option<()> { FALLBACK_TA.with(|c| c.set(c.get() + 1)); None }" % n for n in absent_t))
+            src.append("impl%s FallbackTryAs for %s {}" % (("<%s>" % ", ".join(["'l%d" % q for q in range(it.lifetimes)])) if it.lifetimes else "",
+                                                         RR.inst(it) if not it.lifetimes else it.ident + "<%s>" % ", ".join(["'l%d" % q for q in range(it.lifetimes)] + ["u8"] * it.tparams)))
+            absent_call = "FALLBACK_TA.with(|c| c.set(0)); { let pv = val(j); %s } parts.push(format!(\"absent={}/%d\", FALLBACK_TA.with(|c| c.get())));" % (
+                " ".join("let _ = pv.%s_ref();" % n for n in absent_t), len(absent_t))
         arms["tryas"] = '''
             let j: usize = args[0].parse().unwrap();
             let jm: usize = args[2].parse().unwrap();
             let mut parts: Vec<String> = vec![format!("self={}", vobs(&val(j))), format!("mut={}", vobs(&val(jm)))];
+            ABSENT_CALL
             let more: Vec<String> = vec![%s];
             parts.extend(more);
             format!("[{}]", parts.join(";"))
-        ''' % ", ".join(parts)
+        '''.replace("ABSENT_CALL", absent_call) % ", ".join(parts)
     if "EnumMessage" in derives:
         arms["msg"] = '''
             use %s::EnumMessage;
